@@ -26,6 +26,27 @@ RULE_TEXT = ("instances = writers of code/debug_map per function, token-fetch pa
 ASSUMPTIONS = ["rustc MIR / Instance resolution correct", "Vec::push/truncate behave as documented"]
 
 
+def _plain_count(e, depth=0):
+    """phi(const | previous + 1 | ...): starts at / is reset to a constant and grows by one"""
+    from ..zone import strip as zstrip
+    e = zstrip(e)
+    if not isinstance(e, tuple) or depth > 6:
+        return False
+    if e[0] == 'const':
+        return isinstance(e[1], dict) and isinstance(e[1].get('v'), int)
+    if e[0] == 'cycle':
+        return True
+    if e[0] == 'phi':
+        return all(_plain_count(x, depth + 1) for x in e[1])
+    if e[0] == 'proj' and len(e[2]) == 1 and e[2][0] in (0, '0'):
+        return _plain_count(e[1], depth + 1)          # (sum, overflowed).0 of the checked add
+    if e[0] == 'bin' and e[1] in ('Add', 'AddWithOverflow'):
+        a, b = zstrip(e[2]), zstrip(e[3])
+        one = lambda x: isinstance(x, tuple) and x[0] == 'const' and isinstance(x[1], dict) and x[1].get('v') == 1
+        return (one(b) and _plain_count(a, depth + 1)) or (one(a) and _plain_count(b, depth + 1))
+    return False
+
+
 def run(rep, facts, tier):
     fx = facts['dev']
     rep.rule('C17.R1', 'code and debug map move in lock-step (same length-changing operation, same bound, same paths)')
@@ -197,6 +218,24 @@ def run(rep, facts, tier):
                 'a failing step is recorded (%s) before its error is propagated' % how if ok else
                 '%s %s' % (short(fn), 'propagates a step error without recording its location' if not recorded else 'does not propagate the step error'),
                 fn, f.j['span'])
+    # "the first recorded location wins" is right only within one drive: each function that steps the machine (or builds a
+    # source) forgets the previous failure before its first step, otherwise a later failure keeps the older location
+    clearers = {fn for fn, ws in W0.items() for w in ws if w['field'][0] == 'last_error' and w['how'] == 'assign' and len(w['field']) == 1
+                and 'ErrorContext' not in expr_str(fx.fns[fn].expr_of_rvalue(w['stmt']['rv'], 0, frozenset()), -20)} if True else set()
+    for fn, stepper in (('state::State::run', 'state::State::fetch_and_run'), ('state::State::next', 'state::State::fetch_and_run'),
+                        ('state::State::build0', 'state::State::build1')):
+        f = V(fn)
+        steps = [bb for bb, t in f.calls() if callee_of(t) == stepper]
+        clears = {bb for bb, t in f.calls() if callee_of(t) in clearers}
+        for w in awrite.field_writes(fx, f, tracked):
+            if w['field'][0] == 'last_error' and w['how'] == 'assign' and len(w['field']) == 1 and w.get('stmt') and \
+                    'ErrorContext' not in expr_str(f.expr_of_rvalue(w['stmt']['rv'], 0, frozenset()), -20):
+                clears.add(w['bb'])
+        okc = bool(steps) and all(any(f.dominates(c, sb) for c in clears) for sb in steps)
+        rep.add('C17.R3', 'C17.R3:%s:forgets-the-previous-failure-first' % fn, okc,
+                'last_error is cleared on every path to the first step' if okc else
+                '%s steps without clearing last_error first: the first recorded location wins, so a failure after an earlier one is reported '
+                'with the earlier location and message' % short(fn), fn, f.j['span'])
     sre = fx.need('state::State::set_runtime_err_location')
     loc = 'state::State::location_from_current_ip' in fx.reachable_from([sre.name])
     lf = fx.need('state::State::location_from_current_ip')
@@ -262,6 +301,29 @@ def run(rep, facts, tier):
                     drivers.add(c)
     chars = [d for d in drivers if 'core::str::iter::Char' in d]
     other = [d for d in drivers if d not in chars]
+    # line and column are COUNTS of what the character iterator yielded (0, +1 per step); a difference of byte offsets
+    # (`tok_start - start`) is a column only for ASCII text
+    from ..zone import strip as zstrip
+    adt = fx.adts.get('lex::TokenLocation') or {}
+    fields = [fl['name'] for v in adt.get('variants', [])[:1] for fl in v['fields']]
+    n_cnt = 0
+    for (bb0, i0, kind0, payload) in tl.defs().get(0, []):
+        if kind0 != 'assign':
+            continue
+        e0 = tl.expr_of_rvalue(payload, 0, frozenset())
+        for x in expr_walk(e0):
+            if isinstance(x, tuple) and x[0] == 'agg' and x[1] == 'lex::TokenLocation' and len(x[3]) == len(fields):
+                for nm in ('line', 'col'):
+                    if nm not in fields:
+                        continue
+                    v = zstrip(x[3][fields.index(nm)])
+                    n_cnt += 1
+                    okc = _plain_count(v)
+                    rep.add('C17.R4', 'C17.R4:token_location:%s-is-a-count' % nm, okc,
+                            '%s starts at a constant and grows by one per character / line end seen' % nm if okc else
+                            'TokenLocation.%s is %s: not a count of characters seen by the scan (a byte distance is a column only in ASCII text)'
+                            % (nm, expr_str(v, -8)[:80]), tl.name, tl.j['span'])
+    rep.floor('C17.R4 line/col fields of the reported location', n_cnt, 2)
     rep.add('C17.R4', 'C17.R4:token_location:scan-walks-characters', bool(chars) and not other,
             'line/column loop is driven by %s' % short(chars[0]) if chars and not other else
             'the line/column scan is driven by %s: columns are not counted in characters' % [short(d) for d in other] or 'no loop', tl.name, tl.j['span'])
